@@ -1484,18 +1484,25 @@ def run(chk):
                     'library calls are modelled by their specification: np.searchsorted(side=left) on a sorted array = number of entries < v; ndarray.argmin / min(key=) = first minimiser; '
                     'sorted() = the unique ordering of pairwise-distinct comparable keys, TypeError iff a number must be compared with a str; np.fft convolution = exact linear convolution; math.isclose = CPython formula over Q',
                     'numeric-string grammar of the model: [+-]?digits[.digits] (no exponent/blank/underscore/inf/nan); strings outside it are checked by the Python oracle only',
-                    'Irwin-Hall closed form is kept as an oracle identity (not proved equal to the distribution of the sum); the harness compares it with exact piecewise polynomials obtained by repeated integration']
+                    'Irwin-Hall: the closed form is PROVED to be the distribution of the sum (convolution recursion + iterated integral over the unit cube, Alg/IrwinHall_proofs.v, real-number axioms of the standard library) and the Q model is proved equal to it; the harness compares the implementation with exact piecewise polynomials obtained by repeated integration and checks the recursion on the implementation by Gauss-Legendre quadrature']
     chk.assume += ['floating-point rounding is not modelled (exact rationals); generated numbers are ints/dyadics or compared at 1e-12..1e-10 absolute',
                    'dict keys are hashable atoms None|int|float|str; bool, nan and inf are outside the model']
     chk.proof()
     per = 220 if chk.tier == 'quick' else 4500
     explore(chk, per)
+    # Irwin-Hall: the convolution recursion proved for the closed form (Alg/IrwinHall_proofs.v) checked on the IMPLEMENTATION by quadrature
+    from props.c20_irwinhall import irwin_hall_stream
+    irwin_hall_stream(chk, 300 if chk.tier == 'quick' else 3000)
     if (chk.broken or chk.mismatches) and not chk.fails:
         explore(chk, per * (6 if chk.tier == 'quick' else 2), do_model=False)
 
 
 def replay(chk, rp):
-    c = rp['case']; name = c['helper']
+    c = rp['case']
+    if 'stream' in c and 'helper' not in c:
+        from props.c20_irwinhall import replay_case
+        return replay_case(chk, c)
+    name = c['helper']
     h = HELPERS[name]
     m = NOMODEL
     try:
